@@ -24,7 +24,7 @@ func TestMain(m *testing.M) {
 // ---- resource manager vs counting model ----
 
 type RMOp struct {
-	Op  string `json:"op"` // request | release | cancel | stats
+	Op  string `json:"op"` // request | request-cancelled | release | cancel | stats
 	Key string `json:"key,omitempty"`
 	N   int64  `json:"n,omitempty"`
 	Sel int    `json:"sel,omitempty"` // selector for the release/cancel target
@@ -44,8 +44,16 @@ func genRM(t *rapid.T) RMCase {
 				N: rapid.SampledFrom([]int64{0, 1, 1, 2, 3, c.Limit, c.Limit + 1, -1}).Draw(t, "n")})
 		case 4, 5, 6:
 			c.Ops = append(c.Ops, RMOp{Op: "release", Sel: rapid.IntRange(0, 50).Draw(t, "sel")})
-		case 7, 8:
+		case 7:
 			c.Ops = append(c.Ops, RMOp{Op: "cancel", Sel: rapid.IntRange(0, 50).Draw(t, "sel")})
+		case 8:
+			if rapid.Bool().Draw(t, "precancelled") {
+				// the requester's cancel channel is already closed when it asks (a peer that has just dropped)
+				c.Ops = append(c.Ops, RMOp{Op: "request-cancelled", Key: rapid.SampledFrom([]string{"a", "b", "c"}).Draw(t, "key"),
+					N: rapid.SampledFrom([]int64{1, 1, 2, c.Limit}).Draw(t, "n")})
+			} else {
+				c.Ops = append(c.Ops, RMOp{Op: "cancel", Sel: rapid.IntRange(0, 50).Draw(t, "sel")})
+			}
 		default:
 			c.Ops = append(c.Ops, RMOp{Op: "stats"})
 		}
@@ -149,6 +157,19 @@ func runRM(c RMCase) core.Result {
 			default:
 				waiting = append(waiting, r)
 				lab["queued"] = true
+			}
+		case "request-cancelled":
+			r := &rmReq{id: nextID, key: op.Key, n: op.N, notifyC: make(chan int, 1), cancelC: make(chan struct{}), cancelled: true}
+			nextID++
+			close(r.cancelC)
+			if m.Request(r.key, r.id, r.n, r.notifyC, r.cancelC) {
+				// the manager answered before the cancellation was seen: the caller holds the reservation
+				granted = append(granted, r)
+				lab["cancelled-request-acquired"] = true
+			} else {
+				// nothing was acquired; should the manager still grant it later, the grant arrives on notifyC
+				waiting = append(waiting, r)
+				lab["cancelled-request-refused"] = true
 			}
 		case "release":
 			if len(granted) == 0 {
